@@ -2538,6 +2538,7 @@ EbErrorType decode_multiple_obu(EbDecHandle *dec_handle_ptr, uint8_t **data, siz
             BlockSize prev_sb_size          = dec_handle_ptr->seq_header.sb_size;
             uint16_t  prev_max_frame_width  = dec_handle_ptr->seq_header.max_frame_width;
             uint16_t  prev_max_frame_height = dec_handle_ptr->seq_header.max_frame_height;
+            EbColorConfig prev_color_config = dec_handle_ptr->seq_header.color_config;
 
             status = read_sequence_header_obu(&bs, &dec_handle_ptr->seq_header);
             if (status != EB_ErrorNone)
@@ -2547,7 +2548,12 @@ EbErrorType decode_multiple_obu(EbDecHandle *dec_handle_ptr, uint8_t **data, siz
             dec_handle_ptr->seq_header_done = 1;
             if (prev_sb_size != dec_handle_ptr->seq_header.sb_size ||
                 prev_max_frame_width != dec_handle_ptr->seq_header.max_frame_width ||
-                prev_max_frame_height != dec_handle_ptr->seq_header.max_frame_height) {
+                prev_max_frame_height != dec_handle_ptr->seq_header.max_frame_height ||
+                /* buffer sizes also depend on the sample size, the plane count and the chroma format */
+                prev_color_config.bit_depth != dec_handle_ptr->seq_header.color_config.bit_depth ||
+                prev_color_config.mono_chrome != dec_handle_ptr->seq_header.color_config.mono_chrome ||
+                prev_color_config.subsampling_x != dec_handle_ptr->seq_header.color_config.subsampling_x ||
+                prev_color_config.subsampling_y != dec_handle_ptr->seq_header.color_config.subsampling_y) {
                 dec_handle_ptr->mem_init_done = 0;
             }
             break;
